@@ -79,6 +79,36 @@ VF_MAIN
   if (o & 1) VF_ASSERT(s.at.all == at && s.step.all == st, "an incomplete pair is rolled back: position and step unchanged by it (C16)");
 #endif
   VF_ASSERT(s.step_step.all == in_ss, "the slew increment is constant within a call");
+#elif VF_OP == 3
+  /* stage switch between stage 0 (decimating path, 2x rate) and stage -1 (interpolating path): a resampler built by the real
+   * vr_init, brought to the state "slew in progress, step about to cross the octave boundary" (step / step_step / position
+   * symbolic, sample data zero), one real vr_process call.  After the switch the fade-in stream (new stage) and the fade-out
+   * stream (old stage) must describe the SAME ratio trajectory: step and step_step, each divided by its stream's step_mult,
+   * agree (up to the bit shifted out by the rescaling). */
+  IN_I64(in_step); IN_I64(in_ss); IN_I64(in_at); IN_UINT(in_slew);
+  static rate_t R; int odone; double mc, mf;
+  fade_coefs[0] = 1;                      /* tables already initialised: vr_init's table preparation (61k float operations) is not this obligation's subject */
+  vr_init(&R, 1.5, 1, 1.);
+  R.default_io_ratio = 0;                 /* ratio already set: */
+  R.current.stage_num = 0; enter_new_stage(&R, 0);
+  /* about to leave stage 0 downwards: integer part 0, fraction below one half (vr_process: stage_dif = -1) */
+  VF_ASSUME(in_step > ((int64_t)1 << 28) && in_step < ((int64_t)1 << 31) && in_ss > -((int64_t)1 << 20) && in_ss < ((int64_t)1 << 20) && in_ss != 0);
+  VF_ASSUME(in_at >= 0 && in_at < ((int64_t)1 << 32) && in_slew >= 8 && in_slew < 1000);
+  R.current.step.all = in_step; R.current.step_step.all = in_ss; R.current.at.all = in_at;
+  R.slew_len = (int)in_slew; R.new_io_ratio = .9;
+  { static float const zeros[8]; (void)vr_input(&R, zeros, 8); }      /* a few (zero) input samples beyond the pre-load */
+  odone = vr_process(&R, 1);
+  VF_ASSERT(odone >= 0 && odone <= 1, "vr_process: 0 <= frames <= requested (C07)");
+  VF_ASSERT(R.fade_len > 0 && R.current.stage_num == -1 && R.fadeout.stage_num == 0, "the octave crossing starts a cross-fade from stage 0 to stage -1 (C16)");
+  mc = R.current.step_mult; mf = R.fadeout.step_mult;
+  VF_ASSERT(mc == 2 * mf || mc == mf || 2 * mc == mf, "the two streams' fixed-point scales differ by a power of two");
+  { /* compare in the finer of the two scales */
+    int64_t sc = R.current.step.all, sf = R.fadeout.step.all, ssc = R.current.step_step.all, ssf = R.fadeout.step_step.all, d, dd;
+    if (mc > mf) { sf *= (int64_t)(mc / mf); ssf *= (int64_t)(mc / mf); } else { sc *= (int64_t)(mf / mc); ssc *= (int64_t)(mf / mc); }
+    d = sc - sf; dd = ssc - ssf;
+    VF_ASSERT(d >= -8 && d <= 8, "after a stage switch both streams run at the same instantaneous ratio (C16)");
+    VF_ASSERT(dd >= -2 && dd <= 2, "after a stage switch both streams slew at the same rate: the ratio keeps moving monotonically towards the target at the set speed (C16)");
+  }
 #endif
   VF_WITNESS();
 }
